@@ -317,6 +317,9 @@ def run(ctx: Ctx) -> None:
     _memo(ctx, "D17.10")
     ctx.rule("D17.11", "a parameter declared as Iterable is traversed once")
     _single_pass(ctx)
+    ctx.rule("D17.12", "random decisions of decode() come from a generator "
+             "that decode() itself creates")
+    _local_generator(ctx)
     ctx.assumptions += [
         "items are [width, height] lists; cut_dimension is 0 or 1",
         "Instance(...) validates what it is given (C03/C19 cover its "
@@ -1994,3 +1997,52 @@ def _single_pass(ctx: Ctx) -> None:
                    construct=f"single pass over {p} in {fi.qualname}",
                    nontrivial=False)
     ctx.count("iterable_parameters", n)
+
+
+
+# ----------------------------------------------------------------- D17.12
+_RNG_METHODS = {"shuffle", "permutation", "permuted", "integers", "random",
+                "choice", "normal", "uniform", "standard_normal", "bytes"}
+
+
+def _local_generator(ctx: Ctx) -> None:
+    """"Decoding the same vector again gives the same instance": a random
+    generator that lives in a field of the decoder keeps its state from one
+    `decode` to the next, so the result would depend on the call history.
+    Every RNG method call in `decode` is on a generator made in `decode`."""
+    repo = ctx.repo
+    fi = repo.func("moptipyapps.binpacking2d.instgen.inst_decoding",
+                   "InstanceDecoder.decode")
+    n = 0
+    for c in ast.walk(fi.node):
+        if not (isinstance(c, ast.Call) and isinstance(
+                c.func, ast.Attribute) and c.func.attr in _RNG_METHODS):
+            continue
+        recv = c.func.value
+        root = recv
+        while isinstance(root, (ast.Attribute, ast.Subscript)):
+            root = root.value
+        is_rng_call = isinstance(recv, ast.Call) and ast.unparse(
+            recv.func).split(".")[-1] in ("default_rng", "Generator",
+                                          "RandomState")
+        local = isinstance(recv, ast.Name) and any(
+            isinstance(st, (ast.Assign, ast.AnnAssign)) and isinstance(
+                getattr(st, "value", None), ast.Call) and ast.unparse(
+                st.value.func).split(".")[-1] in ("default_rng", "Generator",
+                                                  "RandomState")
+            and any(isinstance(t, ast.Name) and t.id == recv.id for t in (
+                st.targets if isinstance(st, ast.Assign) else [st.target]))
+            for st in ast.walk(fi.node))
+        on_self = isinstance(root, ast.Name) and root.id == "self"
+        if not (is_rng_call or local or on_self):
+            continue            # not a generator (e.g. list.random ...)
+        n += 1
+        ok = is_rng_call or local
+        ctx.ob("D17.12", fi, c, ok,
+               f"`{ast.unparse(c)[:70]}` draws from a generator created in "
+               "decode()" if ok else
+               f"`{ast.unparse(c)[:70]}` draws from a generator kept in the "
+               "decoder object: its state carries over from one decode() "
+               "to the next, so the same vector no longer gives the same "
+               "instance", construct="generator of decode", nontrivial=False)
+    ctx.floor("decode_rng_calls", n, 1)
